@@ -1868,7 +1868,12 @@ func (l *MPLSLabelStack) DecodeFromBytes(data []byte, options ...*MarshallingOpt
 
 	for len(data) >= 3 {
 		label := uint32(data[0])<<16 | uint32(data[1])<<8 | uint32(data[2])
-		if label == WITHDRAW_LABEL || label == ZERO_LABEL {
+		// The withdraw markers stand for the whole label field, so they are
+		// recognised in first position only. Further down the stack the same
+		// octets are the label values 0x80000 and 0 without the bottom-of-stack
+		// bit; returning a one-label stack there dropped the labels already
+		// read and made Len() disagree with the octets consumed.
+		if len(labels) == 0 && (label == WITHDRAW_LABEL || label == ZERO_LABEL) {
 			l.Labels = []uint32{label}
 			return nil
 		}
